@@ -233,3 +233,7 @@ def run(P, chk, tier):
     assignment_arm(P, chk)
     balance_set_partial(P, chk)
     C02.amount_set_partial(P, chk)
+    # `= 0` relies on cancelled commodities having been removed from the account's entry (shared with C02 / C04)
+    from . import C04 as _c04
+    chk.rule(_c04.R_ZERO, "every balance mutator removes zero entries of the entry it updated (a bare `= 0` then sees one commodity)")
+    _c04.zero_entries(P, chk)
